@@ -679,22 +679,26 @@ class Progress(JupyterMixin, RenderHook):
                 return
             self._started = False
             try:
-                if self.auto_refresh and self._refresh_thread is not None:
-                    self._refresh_thread.stop()
-                self.refresh()
-                if self.console.is_terminal:
-                    self.console.line()
+                try:
+                    if self.auto_refresh and self._refresh_thread is not None:
+                        self._refresh_thread.stop()
+                    self.refresh()
+                    if self.console.is_terminal:
+                        self.console.line()
+                finally:
+                    self.console.show_cursor(True)
+                    self._disable_redirect_io()
+                if self.transient:
+                    self.console.control(self._live_render.restore_cursor())
+                # the frame is no longer live: a later start() must not erase it (or the lines printed since)
+                self._live_render._shape = None
             finally:
-                self.console.show_cursor(True)
-                self._disable_redirect_io()
+                # the hook goes last and under the lock: a print from another thread either waits in
+                # process_renderables() until the display is gone, or still sees a consistent frame
                 self.console.pop_render_hook()
         if self._refresh_thread is not None:
             self._refresh_thread.join()
             self._refresh_thread = None
-        if self.transient:
-            self.console.control(self._live_render.restore_cursor())
-        # the frame is no longer live: a later start() must not erase it (or the lines printed since)
-        self._live_render._shape = None
         if self.ipy_widget is not None and self.transient:  # pragma: no cover
             self.ipy_widget.clear_output()
             self.ipy_widget.close()
@@ -1028,11 +1032,16 @@ class Progress(JupyterMixin, RenderHook):
     ) -> List[ConsoleRenderable]:
         """Process renderables to restore cursor and display progress."""
         if self.console.is_terminal:
-            renderables = [
-                self._live_render.position_cursor(),
-                *renderables,
-                self._live_render,
-            ]
+            # the lock keeps a print in another thread from drawing a frame in the middle of stop()
+            with self._lock:
+                if self not in self.console._render_hooks:
+                    # the display was stopped (by another thread) after this print collected its hooks
+                    return renderables
+                renderables = [
+                    self._live_render.position_cursor(),
+                    *renderables,
+                    self._live_render,
+                ]
         return renderables
 
 
